@@ -492,9 +492,6 @@ func parseModString(str string) (andMask int32, orMask int32, err error) {
 			if addOrRemove == 0 {
 				addOrRemove = 1
 			}
-			if settingMask > 0 {
-				goto maskError
-			}
 			settingMask = mask & groupMask
 			if addOrRemove > 0 {
 				orMask |= settingMask
